@@ -190,6 +190,17 @@ CLAIMED = {
             'the same data as bpch1.',
             'bpch layout of DESIGN Appendix A (sample reproduced byte for byte); scaled data to 1e-6 relative',
             'DESIGN.md section 4 C18'),
+    'C15': ('B', 'model_checking',
+            'exhaustive enumeration of open histories, each executed in a freshly forked pristine process, with every pool file probed after each history',
+            'Pool of 24 files: every self-describing format (uamiv, lateral_boundary, ICARTT, netCDF3, netCDF4, '
+            'IOAPI-netCDF, ARL, bpch) plus the indistinguishable vertical_diffusivity/humidity pair and an unrecognised '
+            'file, each with its recognisable extension and extension-less, plus one path whose content changes. '
+            'Every history of auto-detecting opens of length 0..2 (quick, 601 histories) / 0..3 (thorough, 14 k) runs '
+            'in a forked child of a pristine parent; afterwards every pool file is probed in both orders: selected '
+            'reader (or exception type), dimensions and a hash of all variable data must equal the fresh-process '
+            'result and the registry must be unchanged; auto-detected result == explicit-format result for '
+            'self-describing formats.',
+            'fork isolates histories (whole process state, not only the registry list)', 'DESIGN.md section 4 C15'),
 }
 
 PENDING_REASON = ('check not built yet in this session; planned per DESIGN.md section 4 '
